@@ -89,7 +89,9 @@ def do_run(name, tier="quick", props=None):
     res = {}
     try:
         for prop in props:
-            r = sh("cd %s && VERIF_REPO=%s ./check %s --tier %s" % (ROOT, wt, prop, tier))
+            # evidence of runs against a changed tree must not overwrite the evidence of /repo
+            r = sh("cd %s && VERIF_EVIDENCE_DIR=%s VERIF_REPO=%s ./check %s --tier %s" % (ROOT, wt + "_evidence", wt, prop, tier))
+            shutil.rmtree(wt + "_evidence", ignore_errors=True)
             lines = [l for l in r.stdout.splitlines() if l.startswith("VIOLATION") or l.startswith("== ") or l.startswith("KNOWN")]
             res[prop] = {"rc": r.returncode, "lines": lines[-6:]}
             print(name, prop, "rc=%d" % r.returncode, "| ".join(lines[-3:])[:300])
